@@ -319,7 +319,19 @@ func parseLayout(b []byte) (*layout, error) {
 			n := p.cnt("arrcount", name+".count")
 			for j := uint64(0); j < n && p.err == nil; j++ {
 				if et == tStr {
-					p.str("arrstrlen", fmt.Sprintf("%s[%d].strlen", name, j))
+					// arrays of more than 8 strings: only the lengths of the first 4 and the
+					// last 2 elements are fields (the elements in between go through the
+					// same loop body of the decoder)
+					if n > 8 && j >= 4 && j < n-2 {
+						k := p.rd(8)
+						if k > uint64(len(p.b)) || !p.need(int(k)) {
+							p.err = io.ErrUnexpectedEOF
+						} else {
+							p.pos += int(k)
+						}
+					} else {
+						p.str("arrstrlen", fmt.Sprintf("%s[%d].strlen", name, j))
+					}
 				} else if sz := scalarSize(et); sz > 0 {
 					p.rd(sz)
 				} else {
@@ -496,6 +508,7 @@ func buildSeeds() []*seed {
 	}
 	wmin := writerSeed(ggml.KV{"general.architecture": "llama"}, nil)
 	add("writer-min", wmin, true)
+	add("enc-v3-one-tensor", encodeGGUF(3, false, 32, []kvSpec{{"general.architecture", tStr, "llama"}}, stdTensors()[1:]), true)
 	add("writer-std", writerSeed(ggml.KV{
 		"general.architecture":      "llama",
 		"general.alignment":         uint32(16),
@@ -518,6 +531,19 @@ func buildSeeds() []*seed {
 	// two models in one file (create splits them): a model followed by a projector
 	proj := writerSeed(ggml.KV{"general.architecture": "clip", "general.type": "projector"}, nil)
 	add("writer-concat", append(append([]byte{}, wmin...), proj...), false)
+	{
+		// map the fields of the second model too
+		cs := seeds[len(seeds)-1]
+		l2, err := parseLayout(proj)
+		if err != nil {
+			panic(err)
+		}
+		for _, f := range l2.fields {
+			f.Off += len(wmin)
+			f.Label = "model2." + f.Label
+			cs.L.fields = append(cs.L.fields, f)
+		}
+	}
 	add("enc-v3-alltypes", encodeGGUF(3, false, 16, allTypesKV(true, true), stdTensors()), true)
 	add("enc-v2-alltypes", encodeGGUF(2, false, 16, allTypesKV(true, true), stdTensors()), false)
 	add("enc-v1-scalars", encodeGGUF(1, false, 16, allTypesKV(true, false), stdTensors()), true)
@@ -541,7 +567,7 @@ func alphabet(f field, fileLen, tensorBase int) []uint64 {
 		}
 		vals = append(vals, 1<<32-1)
 	default:
-		vals = []uint64{0, 1, n - 1, n + 1, 255, 1 << 15, 1 << 24, 1<<31 - 1, 1 << 31, 1<<32 - 1, 1<<63 - 1, 1 << 63, 1<<64 - 1,
+		vals = []uint64{0, 1, n - 1, n + 1, 255, 1 << 15, 1 << 22, 1<<31 - 1, 1 << 31, 1<<32 - 1, 1<<63 - 1, 1 << 63, 1<<64 - 1,
 			uint64(fileLen), uint64(fileLen) + 1,
 			// two's-complement negatives that move a relative seek back to the start of the file / by its length
 			-uint64(tensorBase), -uint64(fileLen)}
